@@ -196,7 +196,7 @@ def main():
             defaults["pes"] = text
             json.dump(defaults, open(DEFAULTS_PATH, "w"))
             print("wrote pes to " + DEFAULTS_PATH)
-    except (ParseError, OSError, ValueError, KeyError, IndexError) as ex:
+    except Exception as ex:  # anything unexpected in the source: fall back, never crash
         print("gen_pes: could not extract (recorded translation used; tie by correspondence only): PES acceptance logic (%s)" % ex, file=sys.stderr)
         text = defaults.get("pes")
         if text is None:
